@@ -183,8 +183,11 @@ def rule_recursion(ctx: Ctx) -> None:
     el = P.func(f"{LZ}.evaluate_lazy")
     tested: dict[str, list[ast.AST]] = {}
     inclusive: dict[str, list[ast.AST]] = {}  # kinds tested with isinstance (subclasses included)
-    d_el = Defs(el)
-    for s_ in [s_ for s_ in ast.walk(el.node) if isinstance(s_, (ast.If, ast.IfExp))]:
+    # the function together with the private helpers it is cut into (a dispatcher + `_evaluate_inside_container`, ...)
+    el_scope = [f_ for f_ in Scope(ctx, el).funcs if f_.module.name == LZ and f_.cls is None]
+    rec_names = tuple(f"{f_.name}(" for f_ in el_scope)
+    for f_el, s_ in [(f_, s_) for f_ in el_scope for s_ in ast.walk(f_.node) if isinstance(s_, (ast.If, ast.IfExp))]:
+        d_el = Defs(f_el)
         for c in [c for c in ast.walk(s_.test) if isinstance(c, ast.Call) and dotted(c.func) == "isinstance" and len(c.args) == 2]:
             for x in ast.walk(c.args[1]):
                 if isinstance(x, (ast.Name, ast.Attribute)):
@@ -207,7 +210,7 @@ def rule_recursion(ctx: Ctx) -> None:
     table_names = {x.id for c in Scope(ctx, el, wide=True).const_nodes() for x in ast.walk(c) if isinstance(x, ast.Name)}
     for k in ("_LazyFunction", "dict", "tuple", "list", "set"):
         regions = tested.get(k, [])
-        rec = any("evaluate_lazy(" in norm(r) or ".evaluate()" in norm(r) for r in regions)
+        rec = any(any(w in norm(r) for w in rec_names) or ".evaluate()" in norm(r) for r in regions)
         ctx.tri("4-recursion", el, regions[0] if regions else el.node, rec, not regions and k not in table_names, f"{k}: evaluated recursively", f"evaluate_lazy never tests for `{k}`: lazy values inside a {k} reach the user function unevaluated", f"{k}: branch found but no recursive call recognised", key=f"kind {k}")
     # a look-ahead ("is there anything deferred in here?") that lets evaluate_lazy hand the argument on untouched must descend into
     # every kind of container that evaluate_lazy itself descends into
